@@ -53,8 +53,16 @@ def impl(case):
     if op == 'from_sparse':
         data = _data(case['nr'], case['nloc'], case['trailing'], case.get('dtype', 'float64'))
         cols = np.array(case['cols'], dtype=np.int64).reshape((case['nr'], case['nloc'])).astype(case.get('cdtype', 'int64'))
-        out = from_sparse(data, cols, np.array(case['chans'], dtype=np.int64) if case.get('chkind') == 'array' else list(case['chans']))
-        return dict(ids=_decode(out, case['trailing']), shape=list(out.shape), dtype=str(out.dtype))
+        chans = np.array(case['chans'], dtype=np.int64) if case.get('chkind') == 'array' else list(case['chans'])
+        keep = (data.copy(), cols.copy(), list(chans))
+        out = from_sparse(data, cols, chans)
+        res = dict(ids=_decode(out, case['trailing']), shape=list(out.shape), dtype=str(out.dtype))
+        # the caller's arrays stay the caller's: unchanged, and a second conversion of the same
+        # objects gives the same result
+        res['args_changed'] = not (np.array_equal(data, keep[0], equal_nan=True) and np.array_equal(cols, keep[1]) and list(chans) == keep[2])
+        out2 = from_sparse(data, cols, chans)
+        res['second_differs'] = _decode(out2, case['trailing']) != res['ids']
+        return res
     with C.scratch_dir() as d:
         m = D.load(D.write_dataset(d, case['spec']))
         try:
@@ -191,6 +199,10 @@ def judge(case, impl_res, ans):
             return 'MACHINERY: Lean model differs from the python oracle'
         if ok['ids'] != exp:
             return 'SPEC: from_sparse differs from (stored value whose column names the channel, else zero)'
+        if ok.get('args_changed'):
+            return 'SPEC: from_sparse modified the data / column table / channel list passed by the caller'
+        if ok.get('second_differs'):
+            return 'SPEC: a second conversion of the same arrays differs from the first'
         return None
     exp = oracle_stored(case)
     got = ok['ids']
